@@ -25,7 +25,7 @@ func runOps(ops string) map[string]string {
 // open-without-deadline on the real breaker: timeout 1000 ms, the probe is admitted at the millisecond of the opening.
 func TestOpenWithoutDeadline(t *testing.T) {
 	r := runOps("case a\ncb.new ec 1000 1 1 0 0\nthread 0 c:1:err\nthread 1 tp\nsched 0 0 0 1 1 1\nresults\nlog\nfinal\n")
-	if r["results"] != "0:[] 1:[t]" || r["final"] != "st=H dl=1000 probe=0 clk=0 live=0" {
+	if r["results"] != "0:[] 1:[t]" || r["final"] != "clk=0 list=0 o0=H,1000,0" {
 		t.Fatalf("finding no longer reproduces: %v", r)
 	}
 }
@@ -35,7 +35,7 @@ func TestOpenWithoutDeadline(t *testing.T) {
 func TestStaleRetryCheck(t *testing.T) {
 	r := runOps("case a\ncb.new ec 10 1 1 0 0\nthread 0 c:1:err\nsched\nsched tick:10\nthread 0 tp\nthread 1 tp c:1:ok c:1:err\n" +
 		"sched 0 0 1 1 1 1 1 1 1 1 1 1 1 1 1 0\nresults\nlog\nfinal\n")
-	if r["results"] != "0:[t] 1:[t]" || r["final"] != "st=H dl=20 probe=0 clk=10 live=0" ||
+	if r["results"] != "0:[t] 1:[t]" || r["final"] != "clk=10 list=0 o0=H,20,0" ||
 		r["log"] != "[C>O@0,O>H@1,H>C@1,C>O@1,O>H@0]" {
 		t.Fatalf("finding no longer reproduces: %v", r)
 	}
@@ -55,7 +55,18 @@ func TestListenerCallsCanReorder(t *testing.T) {
 // breaker is a fresh Closed object and admits the next request by reading Closed (scenario of seeded change C12-r3-3).
 func TestReloadWhileCompletionInFlight(t *testing.T) {
 	r := runOps("case a\ncb.new ec 1000 1 1 0 0\nthread 0 c:1:err\nthread 1 rd:1000:1:2:0:0 tp\nsched 0 0 1 0 0 tick:3 1 1 1\nresults\nlog\nfinal\n")
-	if r["results"] != "0:[] 1:[t]" || r["log"] != "[C>O@0]" || r["final"] != "st=C dl=- probe=0 clk=3 live=1" {
+	if r["results"] != "0:[] 1:[t]" || r["log"] != "[C>O@0]" || r["final"] != "clk=3 list=1 o0=O,1000,0 o1=C,-,0" {
+		t.Fatalf("unexpected: %v", r)
+	}
+}
+
+// LoadRulesOfResource rebuilds on a copy of the resource's breaker list: a request that looks the list up while the
+// rebuild is under way (the harness's pass-through rule yields inside it) still sees [A,B] and is rejected by the Open
+// breaker A (scenario of seeded change C12-r4-3, where the live slice is rebuilt in place and the request sees [B,B]).
+func TestReloadOfResourceWhileRequestsArrive(t *testing.T) {
+	r := runOps("case a\ncb.new ec 1000 0 1 0 0\nrule 1 1000 100 5 0 0\nthread 0 rl:0,1\nsched\nthread 0 c:1:err\nsched\n" +
+		"thread 0 rl:0,1,x\nthread 1 tp tp c:1:ok\nsched 1 0 1 1 1 0 1 1\nresults\nlog\nfinal\n")
+	if r["results"] != "0:[] 1:[f,f]" || r["final"] != "clk=0 list=0.1 o0=O,1000,0 o1=C,-,0" {
 		t.Fatalf("unexpected: %v", r)
 	}
 }
